@@ -202,8 +202,33 @@ fn names_of_kinds(p: &Prog, t: &Tx) -> Vec<String> {
 pub fn mutate(r: &mut Rng, p: &mut Prog) -> String {
     let ti = r.below(p.txs.len() as u64) as usize;
     let names = names_of_kinds(p, &p.txs[ti]);
-    let kind = r.below(12);
+    let kind = r.below(14);
     match kind {
+        12 | 13 => {
+            // an asset whose name is that of a built-in function: the analyzer and lowering must
+            // agree on what a call of that name is
+            let b = *r.pick(&["tip_slot", "min_utxo", "slot_to_time", "time_to_slot"]);
+            if p.assets.is_empty() || r.chance(1, 2) {
+                p.assets.push((b.to_string(), X::Hex(srcgen::policy_hash(9)), X::Str("TIP".into())));
+            } else {
+                let old = p.assets[0].0.clone();
+                p.assets[0].0 = b.to_string();
+                for t in p.txs.iter_mut() {
+                    walk_tx(t, &mut |x| {
+                        if let X::Call(n, _) = x {
+                            if *n == old {
+                                *n = b.to_string();
+                            }
+                        }
+                    });
+                }
+            }
+            let party = p.parties[0].clone();
+            let n_args = r.below(3) as usize;
+            let t = &mut p.txs[ti];
+            t.outputs.push(srcgen::Output { to: Some(X::Id(party)), amount: Some(X::Call(b.to_string(), (0..n_args).map(|k| X::Num(5 + k as i64)).collect())), ..Default::default() });
+            return format!("asset_named_{}_{}args", b, n_args);
+        }
         0 => {
             // lengthen a chain of locals and use its head in an output
             let n = 6 + r.below(7) as usize;
